@@ -33,16 +33,18 @@ const (
 	vsyncPath   = "github.com/lindb/lindb/internal/vsync"
 	vatomicPath = "github.com/lindb/lindb/internal/vatomic"
 	vschedPath  = "github.com/lindb/lindb/internal/vsched"
+	vosPath     = "github.com/lindb/lindb/internal/vos"
 )
 
 func main() {
-	var pkgs, files, scales, nogo multi
+	var pkgs, files, scales, nogo, ospkgs multi
 	repo := flag.String("repo", "/repo", "repository root")
 	out := flag.String("out", "", "output directory for rewritten files")
 	flag.Var(&pkgs, "pkg", "package directory (relative to repo) to rewrite wholesale")
 	flag.Var(&files, "file", "single file (relative to repo) to rewrite")
 	flag.Var(&scales, "scale", "file:const=value constant replacement")
 	flag.Var(&nogo, "keepgo", "file (relative) whose go statements stay real goroutines")
+	flag.Var(&ospkgs, "ospkg", "package directory whose import of \"os\" is replaced by the vos shim (file-system calls become crash points); only that import is touched")
 	flag.Parse()
 	if *out == "" {
 		fatal("need -out")
@@ -63,6 +65,26 @@ func main() {
 	}
 	for _, f := range files {
 		targets[f] = true
+	}
+	osOnly := map[string]bool{} // files rewritten only for their "os" import
+	osFiles := map[string]bool{}
+	for _, p := range ospkgs {
+		ents, err := os.ReadDir(filepath.Join(*repo, p))
+		if err != nil {
+			fatal("%v", err)
+		}
+		for _, e := range ents {
+			n := e.Name()
+			if e.IsDir() || !strings.HasSuffix(n, ".go") || strings.HasSuffix(n, "_test.go") {
+				continue
+			}
+			rel := filepath.Join(p, n)
+			osFiles[rel] = true
+			if !targets[rel] {
+				osOnly[rel] = true
+				targets[rel] = true
+			}
+		}
 	}
 	scaleBy := map[string][][2]string{}
 	for _, sc := range scales {
@@ -107,7 +129,7 @@ func main() {
 			}
 			stats["scaled"]++
 		}
-		res, st, err := rewriteFile(rel, src, !keep[rel])
+		res, st, err := rewriteFile(rel, src, !keep[rel] && !osOnly[rel], !osOnly[rel], osFiles[rel])
 		if err != nil {
 			fatal("%s: %v", rel, err)
 		}
@@ -132,7 +154,7 @@ func fatal(f string, a ...interface{}) {
 	os.Exit(2)
 }
 
-func rewriteFile(name string, src []byte, rewriteGo bool) ([]byte, map[string]int, error) {
+func rewriteFile(name string, src []byte, rewriteGo, rewriteSync, rewriteOS bool) ([]byte, map[string]int, error) {
 	st := map[string]int{}
 	fset := token.NewFileSet()
 	f, err := parser.ParseFile(fset, name, src, parser.ParseComments)
@@ -141,6 +163,16 @@ func rewriteFile(name string, src []byte, rewriteGo bool) ([]byte, map[string]in
 	}
 	for _, im := range f.Imports {
 		p, _ := strconv.Unquote(im.Path.Value)
+		if p == "os" && rewriteOS {
+			im.Path.Value = strconv.Quote(vosPath)
+			if im.Name == nil {
+				im.Name = ast.NewIdent("os")
+			}
+			st["os_imports"]++
+		}
+		if !rewriteSync {
+			continue
+		}
 		switch p {
 		case "sync":
 			im.Path.Value = strconv.Quote(vsyncPath)
